@@ -182,6 +182,9 @@ def oracle(stream, header, ops, obs):
                     if p not in pos or pos[p] > pos[u]:
                         return bad(k, "topo-node-before-a-predecessor", (u, p))
         elif name == "dfsvisit":
+            if first.startswith("events-result-visitor-mismatch"):
+                # the harness ran the same scripted visitor as Control, as Ok(Control) and with Err in place of Break
+                return bad(k, "dfsvisit-result-visitor-not-honoured-like-control")
             x = nums(first)
             brk, evs = x[0], [tuple(x[i:i + 3]) for i in range(1, len(x) - 2, 3)]
             ns = a[0]
